@@ -81,6 +81,11 @@ def gen_main_case(r, i):
     else:
         body = r.choice([["?"], ["--help"], ["c15rec.show?"], ["??c15rec.show"], ["--version"], ["--xargs"], ["--bogus"], [" "], ["7"],
                          ["-source", "c15rec.show"]]) + args
+    if r.random() < .006:
+        # size extremes at the front end: one long flat expression as the only argument
+        long_ = r.choice(["[" + ",".join(["0"] * 2500) + "]", "'" + "a" * 6000 + "'", "(" + "1, " * 1500 + ")"])
+        g = list(r.choice([[], ["--safe"], ["--args=auto"], ["--args=string"]]))
+        body = r.choice([["c15rec.show", long_], ["--apply", "c15rec.show", long_], ["len", long_], ["c15rec.show", "--key=" + long_]])
     return {"kind": "main", "i": i, "argv": g + body, "stdin": stdin}
 
 
